@@ -14,7 +14,13 @@ import (
 	"time"
 )
 
-const VerifDir = "/verif"
+// VerifDir is where evidence, replays and known_findings.jsonl live (VERIF_HOME lets a snapshot of /verif run on its own).
+var VerifDir = func() string {
+	if d := os.Getenv("VERIF_HOME"); d != "" {
+		return d
+	}
+	return "/verif"
+}()
 
 type Finding struct {
 	Kind      string `json:"kind"` // "known" | "fixed"
